@@ -443,7 +443,12 @@ func c20Corrupt(c *Ctx) {
 			lines := t.tokens()
 			row := 1 + r.IntN(len(lines)-1)
 			var what string
-			switch r.IntN(6) {
+			switch r.IntN(7) {
+			case 6: // a table cut off after its header (no score rows at all) whose header has a two-character label
+				j := r.IntN(len(lines[0]))
+				lines = [][]string{append([]string{}, lines[0]...)}
+				lines[0][j] = lines[0][j] + string([]byte{pick(r, ncbiLabels)})
+				what = fmt.Sprintf("header-only table, column label %d replaced by %q", j, lines[0][j])
 			case 5: // the blank between a row label and its first score is missing: a longer label AND one value too few
 				lines[row] = append([]string{lines[row][0] + lines[row][1]}, lines[row][2:]...)
 				what = fmt.Sprintf("row %d: label glued to the first score (%q)", row, lines[row][0])
